@@ -18,8 +18,8 @@ mnemonic of the encoding):
   C01-P  PC destination: where the decode layer lets d be 15, R[d] is written only on the
          d != 15 side and the d == 15 side performs exactly alu_write_pc(result), no flags.
   C01-W  width of results (C10-W re-evaluated on these classes).
-Not decided: that AddWithCarry / Shift_C / the expand-immediate helpers compute the
-architectural numbers (C17, declared there).
+  C01-H  AddWithCarry, Shift_C (all types, every amount incl. carry-out) and the expand-immediate
+         helpers are bit-exact (C17-A re-evaluated here: the role table is stated in their terms).
 """
 import re
 
@@ -319,6 +319,15 @@ def main(repo_path, tier, seed, replay=None):
     for f in bad:
         run.violation('C01-P', f.file, f.func, f.construct, f.message, f.detail)
     run.instance('C01-P', 'ALUWritePC table', obligations=3, ok=not bad, sample={'function': 'ArmV6.alu_write_pc'})
+    # H: the helpers the role table is stated in terms of compute the architectural numbers (C17-A re-evaluated)
+    from . import c17_arith
+    sub = Run('tmp')
+    c17_arith.check_arith(sub, repo)
+    used = ('add_with_carry', 'shift_c', 'lsl_c', 'lsr_c', 'asr_c', 'ror_c', 'arm_expand_imm_c', 'thumb_expand_imm_c')
+    hb = [f for f in sub.findings if f.func in used]
+    for f in hb:
+        run.violation('C01-H', f.file, f.func, f.construct, f.message, f.detail)
+    run.instance('C01-H', 'AddWithCarry / Shift_C / expand-immediate bit-exact', obligations=len(used), ok=not hb, sample={'helpers': list(used)})
     # positive control: SBC passes carry-in 1 (in memory)
     fired = False
     what = ''
@@ -335,11 +344,12 @@ def main(repo_path, tier, seed, replay=None):
             break
     run.control('C01-A SBC carry-in', fired, what)
     run.exhaustive = True
-    run.undecided = ['that AddWithCarry, Shift_C and the expand-immediate helpers compute the architectural numbers (C17, declared undecided there)']
+    run.undecided = []
     run.assumptions = ['families are bound through the reference encodings (spec/enc_*.json); operand decoding is C06/C07']
     return run.finish(
         'C01: each of the data-processing execute() bodies is reduced to an effect trace with normalised value terms and compared '
         'with the role table of its instruction (which operand is inverted, which carry-in, which helper result feeds which flag), '
-        'plus frame, setflags dominance, the joint PC-destination rule against the decode model, guard and width rules. These hold '
+        'plus frame, setflags dominance, the joint PC-destination rule against the decode model, guard and width rules, and the helpers '
+        'themselves (AddWithCarry, Shift_C, expand-immediate) are compared bit for bit with gate-level references. These hold '
         'for every operand value, flag state, shift amount and mode because they are properties of all paths of the loop-free body.',
         './check C01 --tier %s' % tier)
